@@ -645,7 +645,7 @@ func c08sessionCommits(env *core.Env) {
 	for t := range progs {
 		for i, n := 0, c.Range("proglen", 1, 3); i < n; i++ {
 			op := &reg.Op{Handle: 0, StopAfter: -1, ContentFault: -1}
-			switch c.Weighted("kind", []int{5, 6, 1, 2}) {
+			switch c.Weighted("kind", []int{5, 6, 1, 2, 2}) {
 			case 0:
 				op.Kind, op.Data = reg.UpWrite, chunk
 				maxK++
@@ -656,6 +656,11 @@ func c08sessionCommits(env *core.Env) {
 				op.Kind = reg.UpCancel
 			case 3:
 				op.Kind = reg.UpSize
+			case 4:
+				// what a commit produced is deleted again (a commit that is repeated
+				// afterwards and reports success must have stored it again)
+				op.Kind, op.Repo = reg.DeleteBlob, repo
+				op.Digest = reg.Sha256(content(c.Int("delete.k", pre+4)))
 			}
 			progs[t] = append(progs[t], op)
 		}
